@@ -97,10 +97,8 @@ impl ChannelUriStringBuilder {
 
     #[inline]
     pub fn prefix(&mut self, new_prefix: &str) -> Result<&mut Self, AeronError> {
-        if let Some(prefix) = &self.prefix {
-            if !prefix.is_empty() && !prefix.eq(channel_uri::SPY_QUALIFIER) {
-                return Err(IllegalArgumentError::InvalidPrefix(new_prefix.to_string()).into());
-            }
+        if !new_prefix.is_empty() && !new_prefix.eq(channel_uri::SPY_QUALIFIER) {
+            return Err(IllegalArgumentError::InvalidPrefix(new_prefix.to_string()).into());
         }
 
         self.prefix = Some(String::from(new_prefix));
@@ -147,7 +145,7 @@ impl ChannelUriStringBuilder {
             return Err(IllegalArgumentError::InvalidControlMode(control_mode.to_string()).into());
         }
 
-        self.prefix = Some(String::from(control_mode));
+        self.control_mode = Some(String::from(control_mode));
         Ok(self)
     }
 
@@ -250,7 +248,7 @@ impl ChannelUriStringBuilder {
 
     #[inline]
     pub fn session_id(&mut self, session_id: i32) -> &mut Self {
-        self.term_id = Some(Value::new(session_id as i64));
+        self.session_id = Some(Value::new(session_id as i64));
         self
     }
 
@@ -281,14 +279,14 @@ impl ChannelUriStringBuilder {
     #[inline]
     pub fn tether(&mut self, tether: bool) -> &mut Self {
         let value = if tether { 1 } else { 0 };
-        self.term_id = Some(Value::new(value));
+        self.tether = Some(Value::new(value));
         self
     }
 
     #[inline]
     pub fn group(&mut self, group: bool) -> &mut Self {
         let value = if group { 1 } else { 0 };
-        self.term_id = Some(Value::new(value));
+        self.group = Some(Value::new(value));
         self
     }
 
@@ -369,7 +367,7 @@ impl ChannelUriStringBuilder {
         if let Some(session_id) = &self.session_id {
             sb += &format!(
                 "{}={}|",
-                channel_uri::TERM_ID_PARAM_NAME,
+                channel_uri::SESSION_ID_PARAM_NAME,
                 Self::prefix_tag(self.is_session_id_tagged, session_id)
             );
         }
